@@ -133,6 +133,33 @@ Theorem C02_referral_at_or_beneath_cut : forall apex s ops name p z qt r c,
 Proof. exact referral_at_or_beneath_cut. Qed.
 Print Assumptions C02_referral_at_or_beneath_cut.
 
+(* "the zone's records of the asked type at that name (all types for ANY) ...; the CNAME instead when
+   one exists and neither CNAME nor ANY was asked": an existing name that is not a delegation point
+   (or is asked for NS) is classified on its own records ([classify]: the first CNAME unless the
+   question matches CNAME, else the records whose type matches the question) *)
+Theorem C02_existing_name_classified : forall apex s ops name p z qt r,
+  lookup_ctx apex s ops name p z -> zone_resolve z name qt = Some (Ok r) ->
+  let fz := flat_of_ops apex s ops in
+  exists_node fz p -> (p = [] \/ recs_at (f_norm fz) p RT_NS = [] \/ qt = RT_NS) ->
+  zres_equiv r (classify name qt (all_at (f_norm fz) p)) /\
+  (qt <> QT_Wildcard -> r = classify name qt (all_at (f_norm fz) p)).
+Proof. exact existing_name_classified. Qed.
+Print Assumptions C02_existing_name_classified.
+
+(* "records synthesised from the wildcard at the closest existing ancestor when the name itself does
+   not exist" *)
+Theorem C02_missing_name_from_wildcard : forall apex s ops name x l e z qt r,
+  lookup_ctx apex s ops name (x ++ l :: e) z -> zone_resolve z name qt = Some (Ok r) ->
+  let fz := flat_of_ops apex s ops in
+  closest_encloser fz (x ++ l :: e) e ->
+  (e = [] \/ recs_at (f_norm fz) e RT_NS = []) ->
+  has_wild fz e = true ->
+  (recs_at (f_wild fz) e RT_NS = [] \/ qt = RT_NS) ->
+  zres_equiv r (classify name qt (all_at (f_wild fz) e)) /\
+  (qt <> QT_Wildcard -> r = classify name qt (all_at (f_wild fz) e)).
+Proof. exact missing_name_from_wildcard. Qed.
+Print Assumptions C02_missing_name_from_wildcard.
+
 (* the hypotheses are satisfiable: a zone with NS at the apex, an empty non-terminal with a wildcard
    next to an existing child, a wildcard under two empty non-terminals, a delegation, a CNAME next
    to other data, a duplicate insertion and a TTL below the SOA minimum *)
